@@ -29,20 +29,34 @@ def mix_seed(base: int, salt: int, run: int) -> int:
 
 
 class Choices:
+    """Replay is per label: every label owns its own stream of recorded values (in trace order), so deleting or
+    shrinking one decision never shifts the meaning of the values recorded for other labels.  The normalised trace
+    of a run is the ordered list of the choices it actually consumed."""
+
     def __init__(self, seed: Optional[int] = None, trace: Optional[Sequence[Sequence]] = None):
         self.seed = seed
         self.replaying = trace is not None
-        self.src = [int(t[2]) for t in trace] if trace is not None else None
+        self.src = {}
+        self.ptr = {}
+        if trace is not None:
+            for t in trace:
+                self.src.setdefault(t[0], []).append(int(t[2]))
         self.rng = random.Random(seed if seed is not None else 0)
         self.rec: Trace = []
-        self.pos = 0
+        self.prefix = ""
+
+    def scope(self, name: str):
+        return _Scope(self, name)
 
     def choose(self, n: int, label: str = "") -> int:
         if n <= 1:
             return 0
+        label = self.prefix + label
         if self.replaying:
-            v = self.src[self.pos] if self.pos < len(self.src) else 0
-            self.pos += 1
+            q = self.src.get(label)
+            i = self.ptr.get(label, 0)
+            v = q[i] if q is not None and i < len(q) else 0
+            self.ptr[label] = i + 1
             if v >= n:
                 v = n - 1
             if v < 0:
@@ -88,6 +102,20 @@ class Choices:
         return [[l, n, v] for (l, n, v) in self.rec]
 
 
+class _Scope:
+    def __init__(self, ch, name):
+        self.ch, self.name = ch, name
+
+    def __enter__(self):
+        self.saved = self.ch.prefix
+        self.ch.prefix = self.saved + self.name + "."
+        return self.ch
+
+    def __exit__(self, *a):
+        self.ch.prefix = self.saved
+        return False
+
+
 def sha(obj) -> str:
     return hashlib.sha256(json.dumps(obj, sort_keys=True, default=str).encode()).hexdigest()
 
@@ -115,49 +143,71 @@ def shrink(
                 return True
         return False
 
-    improved = True
-    while improved and evals < max_evals:
-        improved = False
-        # 1. truncate tail (binary)
-        lo, hi = 0, len(best)
-        while lo < hi and evals < max_evals:
-            mid = (lo + hi) // 2
-            if attempt(best[:mid]):
-                hi = min(mid, len(best))
-                improved = True
-            else:
-                lo = mid + 1
-        # 2. delete chunks
+    def zero_pass():
+        nonlocal best
+        any_ = False
+        # zero whole blocks first (cheap big simplifications), then single values
+        size = max(1, len(best) // 2)
+        while size >= 1 and evals < max_evals:
+            i = 0
+            while i < len(best) and evals < max_evals:
+                if any(t[2] for t in best[i : i + size]):
+                    cand = [list(t) for t in best]
+                    for t in cand[i : i + size]:
+                        t[2] = 0
+                    if attempt(cand):
+                        any_ = True
+                i += size
+            size //= 2
+        return any_
+
+    def delete_pass():
+        any_ = False
         size = max(1, len(best) // 2)
         while size >= 1 and evals < max_evals:
             i = 0
             while i < len(best) and evals < max_evals:
                 cand = best[:i] + best[i + size :]
                 if len(cand) < len(best) and attempt(cand):
-                    improved = True
+                    any_ = True
                 else:
                     i += size
             size //= 2
-        # 3. zero / reduce values
+        return any_
+
+    def truncate_pass():
+        any_ = False
+        lo, hi = 0, len(best)
+        while lo < hi and evals < max_evals:
+            mid = (lo + hi) // 2
+            if attempt(best[:mid]):
+                hi = min(mid, len(best))
+                any_ = True
+            else:
+                lo = mid + 1
+        return any_
+
+    def reduce_pass():
+        any_ = False
         i = 0
         while i < len(best) and evals < max_evals:
             v = best[i][2]
-            if v > 0:
-                cand = [list(t) for t in best]
-                cand[i][2] = 0
-                if attempt(cand):
-                    improved = True
-                elif v > 1:
+            if v > 1:
+                for nv in (v // 2, v - 1):
                     cand = [list(t) for t in best]
-                    cand[i][2] = v // 2
+                    cand[i][2] = nv
                     if attempt(cand):
-                        improved = True
-                    else:
-                        cand = [list(t) for t in best]
-                        cand[i][2] = v - 1
-                        if attempt(cand):
-                            improved = True
+                        any_ = True
+                        break
             i += 1
+        return any_
+
+    improved = True
+    while improved and evals < max_evals:
+        improved = False
+        for p in (truncate_pass, zero_pass, delete_pass, reduce_pass):
+            if p():
+                improved = True
     return best, evals
 
 
